@@ -11,7 +11,7 @@ THEOREMS = ["Hyp.Persist." + t for t in (
     "c09_refinement", "c09_commit_reopen", "c09_abort_restores", "c09_rollback_restores", "c09_evict_invisible",
     "c09_undisciplined_lost", "c09_undisciplined_survives_abort", "c09_hypatia_blocks_disciplined",
     "c09_blocks_compose")]
-CASES = {"quick": 130, "thorough": 5000}
+CASES = {"quick": 400, "thorough": 5000}
 BUDGET_S = {"quick": 45, "thorough": 780}
 BATCH = 10
 RULE = ("histories of 4-30 catalog operations (index/reindex/unindex/reset on a catalog with field, keyword, "
